@@ -43,6 +43,8 @@ Inductive hstmt :=
   | HAddTo (k : nat) (e : hnexp)             (* member += e *)
   | HAddField                                (* add(field_.name(), field_.value()) *)
   | HFieldClear                              (* field_.clear() *)
+  | HFieldsClear                             (* fields_.clear() *)
+  | HSetNum (k : nat) (n : N)                (* member = literal *)
   | HAdvance.                                (* ++iter *)
 
 Section Hdr.
@@ -108,6 +110,8 @@ Section Hdr.
       | HFieldClear =>
           let st := h_store s in
           Some (LNormal, mk_hst (mk_hs (hs_fields st) (snd (exec flim 0 (fc_clear fc) (hs_field st))) (hs_nums st)) (h_in s))
+      | HFieldsClear => let st := h_store s in Some (LNormal, mk_hst (mk_hs [] (hs_field st) (hs_nums st)) (h_in s))
+      | HSetNum k n => Some (LNormal, mk_hst (hset (h_store s) k n) (h_in s))
       | HAdvance => match h_in s with [] => None | _ :: t => Some (LNormal, mk_hst (h_store s) t) end
       end.
 
